@@ -12,6 +12,8 @@ Verdict clauses:
   A4  ValuesOfCorrectTypeRule accepts a constant argument literal  <=>  coerce_input_literal succeeds
   A5  get_variable_values returns either errors or a value for every provided or defaulted variable, conforming
   A6  none of these functions raises
+  A7  a literal containing a variable (an input object field given as $x) coerces, with x provided, like the literal with
+      x's value in its place, and, with x absent, like the literal without that field
 """
 from __future__ import annotations
 
@@ -108,9 +110,18 @@ def break_value(v, rnd):
     return rnd.choice(edge)
 
 
+class VarRef:
+    """stands for a variable reference inside a literal"""
+
+    def __init__(self, name):
+        self.name = name
+
+
 def to_literal_text(v, t, S, rnd):
     """a GraphQL literal spelling of a runtime value, type-directed for enums; None when not spellable"""
     from graphql.pyutils import Undefined
+    if isinstance(v, VarRef):
+        return "$" + v.name
     if v is Undefined:
         return None
     if v is None:
@@ -249,6 +260,37 @@ def _chunk(seeds):
                     rule_errs = validate(schema, doc, [ValuesOfCorrectTypeRule])
                     if ok2 != (not rule_errs):
                         viol2.append(("A4-rule-and-literal-coercion-disagree", {"coerces": ok2, "rule_errors": [e.message for e in rule_errs][:2]}))
+                    # ---- A7: literals that contain variables (an input object field given as a variable), under variable values:
+                    #      a provided variable is its value; a variable without a runtime value makes the field count as
+                    #      omitted (its default applies, or the object is invalid if the field is required)
+                    inner = t
+                    while inner[0] != "N":
+                        inner = inner[1]
+                    d = next((x for x in S["types"] if x["name"] == inner[1]), None)
+                    if ok2 and isinstance(v, dict) and v and d is not None and d["kind"] == "INPUT_OBJECT" and not d["oneOf"] and t[0] != "L" \
+                            and not (t[0] == "NN" and t[1][0] == "L"):
+                        fk = rnd.choice(sorted(v))
+                        fdef = next((f for f in d["inputFields"] if f["name"] == fk), None)
+                        if fdef is not None and _jsonlike(v[fk]):
+                            vt = fdef["type"][1] if fdef["type"][0] == "NN" else fdef["type"]       # the nullable variant of the field's type
+                            with_var = to_literal_text({**v, fk: VarRef("x")}, t, S, rnd)
+                            without = to_literal_text({kk: xx for kk, xx in v.items() if kk != fk}, t, S, rnd)
+                            vdefs = parse("query ($x: %s) { __typename }" % gs.tstr(vt)).definitions[0].variable_definitions
+                            if with_var is not None and without is not None:
+                                vnode = parse_value(with_var)
+                                given = get_variable_values(schema, vdefs, {"x": v[fk]})
+                                if not isinstance(given, list) and v[fk] is not None:
+                                    c_given = coerce_input_literal(vnode, gtype, given)
+                                    if not same(c_given, c2):
+                                        viol2.append(("A7-variable-in-literal-differs-from-its-value", {"literal": with_var[:100], "x": repr(v[fk])[:60],
+                                                                                                        "with_variable": repr(c_given)[:80], "constant": repr(c2)[:80]}))
+                                missing = get_variable_values(schema, vdefs, {})
+                                if not isinstance(missing, list):
+                                    c_missing = coerce_input_literal(vnode, gtype, missing)
+                                    c_without = coerce_input_literal(parse_const_value(without), gtype)
+                                    if not same(c_missing, c_without):
+                                        viol2.append(("A7-missing-variable-in-field-differs-from-omitted-field", {"literal": with_var[:100], "field": fk,
+                                                      "with_missing_variable": repr(c_missing)[:80], "field_omitted": repr(c_without)[:80]}))
                     # ---- variables: A5 (the same value passed through a variable of that type)
                     vdoc = parse("query ($v: %s) { host%d(a: $v) }" % (gs.tstr(t), k))
                     if _jsonlike(v):
